@@ -9,9 +9,24 @@ import BpProofs.JsonNonEmpty
     valEqv_msgEq :  MsgOk S m → ValEqv S m m' → msgEq S m m' = true ∧ msgEq S m' m = true
 
   Only the ORIGINAL has to be well-typed (`MsgOk`); nothing is asked of the decoded side.
+  There is no counterexample: every pair `ValEqv` relates, with a `MsgOk` left component, is
+  identified by `==`.
+
+  Contents (helper lemmas live in the namespace `Bp.EqS`):
+    * `atomEq_comm`, `valEq_default_right` / `valEq_default_left`: `defEq S k v` — what `slotsEq`
+      uses when one side holds PLACEHOLDER — IS `valEq` against the materialised default
+      `defaultOfKind S k`, in either order (faithfulness of the split definition in BpModel/Eq.lean);
+    * `valEq_refl`: `==` is reflexive on `DeepOk` values (nested messages `MsgOk`; dict keys
+      pairwise different and equal to themselves) — this is where the both-NaN rule is needed;
+    * `slot_default` / `slots_default`: a well-typed slot that emits no byte, or that the encoder
+      finds equal to its default (`eqDefault`), equals the corresponding slot of a fresh instance
+      under `__eq__` — `-0.0`, empty str / bytes / list / dict, epoch, zero timedelta, `None` in a
+      wrapper field, an unmarked sub-message all of whose slots are like that (induction);
+    * `valEqv_valEq` / `listEqv_listEq` / `slotsEqv_slotsEq`: the containment, by structural
+      recursion on the original value and case analysis of the `ValEqv` derivation.
 -/
-namespace Bp
-open Gen
+namespace Bp.EqS
+open Bp Gen
 
 /-! ### the comparison of values that are not containers -/
 
@@ -1052,6 +1067,11 @@ theorem slotsEqv_slotsEq (S : Schema) : ∀ (vs vs' : List Val) (fs : List Field
 termination_by structural vs => vs
 end
 
+end Bp.EqS
+
+namespace Bp
+open Gen EqS
+
 /-- **`ValEqv` is contained in `==`**: a well-typed message and anything `ValEqv`-related to it
     (in particular what `parse(bytes(m))` returns) are equal under `Message.__eq__`, in both
     orders.  Nothing is assumed about `m'`. -/
@@ -1074,5 +1094,5 @@ theorem valEqv_msgEq (S : Schema) (m m' : Val) (hm : MsgOk S m) (h : ValEqv S m 
 end Bp
 
 #print axioms Bp.valEqv_msgEq
-#print axioms Bp.valEq_default_right
-#print axioms Bp.valEq_default_left
+#print axioms Bp.EqS.valEq_default_right
+#print axioms Bp.EqS.valEq_default_left
